@@ -79,6 +79,7 @@ def run_generic(prop: str, idx: Index, rep: Report, tier: str) -> None:
     anchors = _anchor_files(prop)
     anchored = [ci for m in idx.modules.values() for ci in m.classes.values() if any(m.relpath == a or (a.endswith("/") and m.relpath.startswith(a)) for a in anchors)]
     n += rules2.companion_fields(rep, f"{g} companion-fields-written-together", idx, anchored) or 0
+    n += rules2.clone_shares_mutable_state(rep, f"{g} clone-shares-no-mutable-state", idx, anchored) or 0
     n += rules2.parallel_lists(rep, f"{g} parallel-lists-grow-together", idx, funcs) or 0
     if not rules2.self_check_strip():
         from ..index import AnalysisError
